@@ -53,12 +53,26 @@ enum Transposition {
 
 /// An edge between nodes is a tuple struct `Edge(u, v, e)` where `u` is the
 /// source node, `v` is the target node, and `e` is the edge's value.
-#[derive(Clone, PartialEq)]
+#[derive(Clone)]
 pub struct Edge<K = usize, N = (), E = ()>(pub Node<K, N, E>, pub Node<K, N, E>, pub E)
 where
     K: Clone + Hash + PartialEq + Eq + Display,
     N: Clone,
     E: Clone;
+
+// Same notion of equality as in `digraph`, `ungraph` and `sync_ungraph`:
+// two edges are equal when they join the same nodes (the derived impl also
+// compared the edge values and needed `E: PartialEq`).
+impl<K, N, E> PartialEq for Edge<K, N, E>
+where
+    K: Clone + Hash + PartialEq + Eq + Display,
+    N: Clone,
+    E: Clone,
+{
+    fn eq(&self, other: &Self) -> bool {
+        self.0 == other.0 && self.1 == other.1
+    }
+}
 
 impl<K, N, E> Edge<K, N, E>
 where
